@@ -508,6 +508,9 @@ class Interp:
             return Or(*[self.eq(item, x) for x in container]) if container else False
         if isinstance(container, SymMap):
             return z3.Select(container.dom, container.key(item))
+        if isinstance(container, UTerm) or (isinstance(container, Tok) and getattr(container, "module_global", False)):
+            self.nfresh += 1
+            return z3.Bool("intest!%d" % self.nfresh)
         if isinstance(container, dict):
             if not is_symbolic(item) and not isinstance(item, (Obj, SOpt)):
                 try:
@@ -537,6 +540,8 @@ class Interp:
         if isinstance(a, SOpt) or a is None or isinstance(b, SOpt) or b is None:
             a = self.unwrap(a, "TypeError", "unsupported operand type(s): NoneType")
             b = self.unwrap(b, "TypeError", "unsupported operand type(s): NoneType")
+        if isinstance(a, UTerm) or isinstance(b, UTerm):
+            return UTerm("binop." + op, [a, b], a.sort if isinstance(a, UTerm) else b.sort)
         # datetime arithmetic
         if isinstance(a, DT) and isinstance(b, RD) and op == "Add":
             return models.add_rd(self, a, b)
@@ -667,6 +672,17 @@ class Interp:
                 raise PyRaise("AttributeError", "'%s' object has no attribute '%s'" % (v.cls.name, name))
             return self.bind(v, m)
         if isinstance(v, Tok):
+            if getattr(v, "module_global", False):
+                # a long-lived module-level object the engine does not look into: calling a mutating
+                # method on it writes state that outlives the call (frame violation); its results are opaque
+                def meth(it, a, k, _n=name, _v=v):
+                    if _n in ("setdefault", "append", "add", "update", "pop", "clear", "extend", "insert", "remove",
+                              "__setitem__", "popitem", "discard", "put", "cache_clear", "acquire", "release"):
+                        it.events.append(("frame", "%s() on module-level object %s keeps state across calls" % (_n, _v.name), it.cur_line))
+                    u = UTerm("call:%s.%s" % (_v.name, _n), list(a), "any")
+                    u.from_module_global = True
+                    return u
+                return Builtin("%s.%s" % (v.name, name), meth)
             raise Unsupported("attribute %s of opaque token %s" % (name, v.name))
         if isinstance(v, SuperProxy):
             mro = v.obj.cls.mro()
@@ -720,6 +736,17 @@ class Interp:
             if name == "weekday":
                 from spec import calendar as cal
                 return Builtin("datetime.weekday", lambda it, a, k: cal.weekday(v.ordinal()))
+            if name == "replace":
+                def repl(it, a, k, _v=v):
+                    if a:
+                        raise Unsupported("datetime.replace with positional arguments")
+                    vals = {f: getattr(_v, f) for f in DT.FIELDS}
+                    for kk, vv in k.items():
+                        if kk not in vals:
+                            raise Unsupported("datetime.replace(%s=)" % kk)
+                        vals[kk] = it.unwrap(vv, "TypeError", "an integer is required")
+                    return models.make_datetime(it, [vals[f] for f in DT.FIELDS], {})
+                return Builtin("datetime.replace", repl)
         if isinstance(v, DateV) and name in ("year", "month", "day"):
             return getattr(v, name)
         if isinstance(v, RD) and (name in RD.REL or name in RD.ABS):
@@ -782,7 +809,10 @@ class Interp:
             return And(*[self.hash_equal(x, y) for x, y in zip(a.items, b.items)])
         if a.kind == "id":
             return a.items[0] is b.items[0]
-        return self.eq(a.items[0], b.items[0])
+        try:
+            return self.eq(a.items[0], b.items[0])
+        except Unsupported:
+            return False          # equality of the hashed values cannot be established
 
     def raise_(self, cls, msg):
         raise PyRaise(cls, msg)
@@ -1235,7 +1265,7 @@ class Interp:
             return app(self, f, args, kwargs)
         if isinstance(f, Builtin):
             if f.name in ("list", "set", "sorted", "tuple", "reversed") and args and isinstance(args[0], UTerm):
-                return UTerm(f.name, list(args))
+                return UTerm(f.name, list(args) + [(k, repr(v)) for k, v in sorted(kwargs.items())])
             return f.fn(self, list(args), dict(kwargs))
         if isinstance(f, BoundMethod):
             return self._call(f.func, [f.self_] + list(args), kwargs)
@@ -1443,6 +1473,14 @@ class Interp:
             raise Unsupported("assignment target %s" % type(t).__name__)
 
     def store_subscript(self, o, i, v, node):
+        if isinstance(o, UTerm):
+            if getattr(o, "from_module_global", False):
+                self.events.append(("frame", "store into an object obtained from module-level state (%s)" % o.fn, getattr(node, "lineno", None)))
+                return
+            raise Unsupported("subscript store on abstract value")
+        if isinstance(o, Tok) and getattr(o, "module_global", False):
+            self.events.append(("frame", "store into module-level object %s" % o.name, getattr(node, "lineno", None)))
+            return
         if isinstance(o, SymMap):
             kk = o.key(i)
             o.val = z3.Store(o.val, kk, self.toreal(v))
@@ -1646,6 +1684,16 @@ class Interp:
         for t in ts:
             names.append(t.id if isinstance(t, ast.Name) else getattr(t, "attr", "?"))
         return any(self.world.exc_isinstance(e.cls, n) for n in names)
+
+    def x_With(self, s, fr):
+        # context managers of external libraries (bz2.open, open): the managed value is opaque
+        for item in s.items:
+            v = self.eval(item.context_expr, fr)
+            if not isinstance(v, (UTerm, Tok)):
+                raise Unsupported("with-statement over a repo object")
+            if item.optional_vars is not None:
+                self.assign(item.optional_vars, v, fr)
+        self.exec_block(s.body, fr)
 
     def x_Delete(self, s, fr):
         raise Unsupported("del")
@@ -1985,6 +2033,14 @@ class Interp:
         if hook is not None:
             hook(self, f, v)
         f.yielded.append(v)
+        return None
+
+    def e_YieldFrom(self, e, fr):
+        f = self.gen_frame(fr)
+        if f is None:
+            raise Unsupported("yield from outside generator")
+        for v in self.iterate(self.eval(e.value, fr)):
+            f.yielded.append(v)
         return None
 
     def e_Starred(self, e, fr):
